@@ -39,9 +39,9 @@ type Case struct {
 	Tail bool `json:"tail,omitempty"`
 }
 
-var spinCores = []string{"loop", "loop_cond", "cfor", "cfor_nocond", "forin_nested", "forin_map", "recursion", "loop_in_switch", "loop_nested_break", "loop_continue", "fanout_range", "fanout_recv", "fanout_recv2", "pipeline_relay"}
+var spinCores = []string{"loop", "loop_cond", "cfor", "cfor_nocond", "forin_nested", "forin_map", "recursion", "loop_in_switch", "loop_nested_break", "loop_continue", "fanout_range", "fanout_recv", "fanout_recv2", "pipeline_relay", "deep_recursion"}
 var blockCores = []string{"recv", "send", "recv2", "range_chan", "recv_stmt", "drain_two", "drain_three", "forward_blocked", "forward_full"}
-var wrappers = []string{"fn0", "fn2", "fn4", "fn5", "fnvar", "anon", "go_join", "go_join5", "try_body", "catch", "finally", "coalesce_l", "coalesce_r", "ternary", "deferred", "list_elem", "go_arg", "module", "if", "switch_case", "forin_once", "try_empty_catch", "try_empty_catch_e", "try_empty_finally", "deferred_implicit", "deferred_top", "deferred_twice", "return_call", "callback"}
+var wrappers = []string{"fn0", "fn2", "fn4", "fn5", "fnvar", "anon", "go_join", "go_join5", "try_body", "catch", "finally", "coalesce_l", "coalesce_r", "ternary", "deferred", "list_elem", "go_arg", "module", "if", "switch_case", "forin_once", "try_empty_catch", "try_empty_catch_e", "try_empty_finally", "deferred_implicit", "deferred_top", "deferred_twice", "return_call", "finally_after_throwing_catch", "finally_after_returning_catch", "callback"}
 
 func gen(t *rapid.T) Case {
 	c := Case{Procs: 0}
@@ -61,6 +61,15 @@ func gen(t *rapid.T) Case {
 	c.Procs = rapid.SampledFrom([]int{0, 0, 1, 2, 4}).Draw(t, "procs")
 	c.Stale = rapid.IntRange(0, 3).Draw(t, "stale") == 0
 	c.Tail = rapid.IntRange(0, 2).Draw(t, "tail") == 0
+	if c.Core == "deep_recursion" {
+		if rapid.IntRange(0, 9).Draw(t, "deep?") != 0 {
+			c.Core = "recursion" // the deep core costs more than half a second per case: kept rare
+		} else {
+			// the cancellation lands tens of thousands of frames deep: unwinding must stay fast
+			c.Mode = "A"
+			c.K = rapid.IntRange(20000, 30000).Draw(t, "deepk")
+		}
+	}
 	return c
 }
 
@@ -89,6 +98,8 @@ func coreSrc(core string) string {
 		return "for ea in big {\n for eb in big {\n  for ec in big {\n   tick()\n  }\n }\n}"
 	case "forin_map":
 		return "for {\n for mk, mv in bigm {\n  tick()\n }\n}"
+	case "deep_recursion":
+		return "func deep(n) {\n tick()\n return deep(n + 1) + 1\n}\ndeep(0)"
 	case "recursion":
 		return "func rec(n) {\n tick()\n if n % 50 == 49 {\n  return n\n }\n return rec(n + 1)\n}\nfor {\n rec(0)\n}"
 	case "loop_in_switch":
@@ -204,6 +215,14 @@ func wrap(w string, body string, level int, tail bool) string {
 		return def("") + "func() {\n defer id(1)\n defer " + fn + "()\n defer id(2)\n return 2\n}()" + sent
 	case "return_call":
 		return def("") + "func() {\n return " + fn + "()\n}()" + sent
+	case "finally_after_throwing_catch":
+		// whether a finally block runs after a catch block that itself failed is not specified; where
+		// it does, an interruption inside it must not be replaced by the catch block's error
+		// (the error of the catch block is contained by an outer try, so that an enclosing goroutine
+		// wrapper still signals its completion)
+		return def("") + "try {\n try {\n  throw 1\n } catch e {\n  throw 2\n } finally {\n  " + fn + "()\n }\n} catch e2 {\n}" + sent
+	case "finally_after_returning_catch":
+		return def("") + "func() {\n try {\n  throw 1\n } catch e {\n  return 3\n } finally {\n  " + fn + "()\n }\n}()" + sent
 	case "callback":
 		return def("") + "call(" + fn + ")" + sent
 	}
@@ -274,6 +293,7 @@ type result struct {
 	lateness   time.Duration
 	entered    bool
 	infra      string
+	cancelled  bool // the harness did cancel the context
 }
 
 const runawayLimit = 50
@@ -382,6 +402,7 @@ func runCase(c Case, bound time.Duration) result {
 		cancelled.Store(true)
 		post.Store(runawayLimit)
 	}
+	res.cancelled = cancelAt.Load() != 0
 	res.runaway = runaway.Load()
 	res.postTicks = post.Load()
 	res.postProbes = postP.Load()
@@ -428,6 +449,12 @@ func oracle(c Case, o *h.Obs) *h.Fail {
 		if _, _, ok := sourceParts(c); ok {
 			o.Class("function_defined_by_an_earlier_run_" + c.Wrappers[len(c.Wrappers)-1])
 		}
+	}
+	if !r.cancelled {
+		// the run ended by itself before the cancellation could be placed (e.g. a finally block
+		// that this implementation does not enter after a failing catch block)
+		o.Excluded = "core not reached: the run ended before the cancellation"
+		return nil
 	}
 	o.NonTrivial = len(c.Wrappers) >= 1 && (r.ticks >= int64(c.K) || r.entered || c.Mode == "A")
 	site := c.Core + "|" + strings.Join(c.Wrappers, ">")
